@@ -1,5 +1,6 @@
 CONSTANTS
   MaxPer = 2
+  MaxKw = 3
   Emit = TRUE
   Variant = "fixed"
 SPECIFICATION Spec
